@@ -303,7 +303,7 @@ def cases_chunk(ctx):
                     yield _chunk_case(mode, T, [row], 0, lens_none=True)
         # ordered pairs
         for T in range(1, b["t2red"] + 1):
-            ends = range(-T - 1, 2 * T + 2) if T <= b["t2full"] else _kinds(T)
+            ends = range(-T - 1, 2 * T + 1) if T <= b["t2full"] else _kinds(T)
             cfgs = _chunk_rowcfgs(mode, T, ends)
             for r0 in cfgs:
                 for r1 in cfgs:
@@ -408,6 +408,8 @@ def check_shift(case):
     from pydrobert.torch import functional as PF
     from pydrobert.torch import modules as PM
 
+    import pydrobert.torch._img as IMG
+
     mode, T, rest, dtype = case["mode"], case["T"], case.get("rest", []), case.get("dtype", "float32")
     lens, prop, training = case["lens"], case["prop"], case["training"]
     N = len(lens)
@@ -424,6 +426,15 @@ def check_shift(case):
     if u != "rand":
         uval = {"zero": 0.0, "half": 0.5, "max": U_MAX}[u]
         torch.rand_like = lambda t, *a, **k: torch.full_like(t, uval)
+    # observe the pad amounts the layer hands to pad_variable (when it goes through its module-level name)
+    seen = []
+    saved_pv = IMG.pad_variable
+
+    def spy(x_, lens_, pad_, *a, **k):
+        seen.append((lens_.clone(), pad_.clone()))
+        return saved_pv(x_, lens_, pad_, *a, **k)
+
+    IMG.pad_variable = spy
     try:
         if case.get("api", "functional") == "module":
             layer = PM.RandomShift(tuple(prop) if isinstance(prop, list) else prop, mode, VALUE)
@@ -433,6 +444,7 @@ def check_shift(case):
             out, out_lens = PF.random_shift(x, lens_t, (float(pl), float(pr)), mode, VALUE, training)
     finally:
         torch.rand_like = saved
+        IMG.pad_variable = saved_pv
     if not training:
         if tuple(out.shape) != tuple(x.shape) or not torch.equal(out, x) or not torch.equal(out_lens, lens_t):
             return "evaluation mode is not the identity: out_lens %s vs %s, out shape %s vs %s" % (out_lens.tolist(), lens, tuple(out.shape), tuple(x.shape))
@@ -446,7 +458,23 @@ def check_shift(case):
     F = _prod(rest)
     xr, orr = _rows(x, N), _rows(out, N)
     fill = _fill(F, dtype)
+    exact = None  # the (left, right) amounts actually added, when observable
+    if len(seen) == 1 and seen[0][0].tolist() == lens and tuple(seen[0][1].shape) == (2, N):
+        if seen[0][1].is_floating_point() or seen[0][1].is_complex():
+            return "pad amounts are not whole numbers (dtype %s)" % seen[0][1].dtype
+        exact = seen[0][1].tolist()
     for n, L in enumerate(lens):
+        if exact is not None:
+            p0, p1 = exact[0][n], exact[1][n]
+            if not (0 <= p0 <= pl * L and 0 <= p1 <= pr * L):
+                return "row %d len %d: added (%d, %d) elements, outside 0..%s*len / 0..%s*len" % (n, L, p0, p1, pl, pr)
+            if ol[n] != L + p0 + p1:
+                return "row %d len %d: added (%d, %d) elements but reported length %d" % (n, L, p0, p1, ol[n])
+            if not legal(mode, L, p0, p1):
+                return "row %d len %d: added (%d, %d) elements, not a legal %s pad" % (n, L, p0, p1, mode)
+            want = pad_rule(xr[n][:L], p0, p1, mode, fill)
+            if orr[n][: ol[n]] != want:
+                return "row %d len %d (%s): padded by (%d, %d): got %s want %s" % (n, L, mode, p0, p1, orr[n][: ol[n]], want)
         d = ol[n] - L
         max0, max1 = int(pl * L), int(pr * L)  # whole numbers not exceeding prop * len (props are dyadic, products exact)
         cands = [(p0, d - p0) for p0 in range(0, max0 + 1) if 0 <= d - p0 <= max1]
@@ -579,7 +607,7 @@ FINDINGS = [
     {"id": "KF-C09-2", "property": "C09", "clause": "C09.chunk.post",
      "what": "chunk_by_slices(mode='replicate') with a non-empty slice reaching more than T beyond either end of its sequence: same _get_padding_buffers truncation as KF-C09-1",
      "class": "mode == 'replicate' and some row has a non-empty slice with -start > T or end - len > T",
-     "witness": {"mode": "replicate", "T": 1, "rest": [], "dtype": "float32", "via": "functional", "lens": [2], "slices": [[-3, 1]]}},
+     "witness": {"mode": "replicate", "T": 2, "rest": [], "dtype": "float32", "via": "functional", "lens": [2], "slices": [[-3, 1]]}},
     {"id": "KF-C09-3", "property": "C09", "clause": "C09.shift.bounds",
      "what": "random_shift(mode='replicate') with a proportion > 1 can draw a pad > T and then fails as KF-C09-1",
      "class": "mode == 'replicate' and training and floor(max(prop) * max(lens)) > T (and the uniform draw not forced to 0)",
@@ -641,7 +669,7 @@ def run_bounded(ctx):
     if _wanted(ctx, "C09.chunk.post"):
         ctx.bounded(
             "C09.chunk.post", check_chunk, cases_chunk(ctx),
-            bound="3 modes; N=0; N=1: T<=%d, all lens (and lens omitted), all legal slices in [-T-2,2T+2]^2, trailing dims {(),(2,),(2,1)}; N=2 (ordered pairs): T<=%d all legal slices in [-T-1,2T+1]^2, "
+            bound="3 modes; N=0; N=1: T<=%d, all lens (and lens omitted), all legal slices in [-T-2,2T+2]^2, trailing dims {(),(2,),(2,1)}; N=2 (ordered pairs): T<=%d all legal slices in [-T-1,2T]^2, "
                   "T<=%d end points in {-T-1,-1,0,T,T+1,2T-1}; N=3: T in 2..%d end points {-1,T-1,2T-1}, all lens; %d seeded random batches (N<=5, T<=9, slices in [-2T-2,3T+2])" % (
                       cb["t1"], cb["t2full"], cb["t2red"], cb["t3"], cb["nrand"]),
             text="chunk_by_slices / ChunkBySlices: reported lengths = max(end-start,0) exactly, and every row's valid part equals that sequence alone padded as far as the slice reaches and sliced (negative starts, ends beyond the length, slices wholly in either padding, empty, inverted)",
@@ -669,5 +697,6 @@ def run_bounded(ctx):
         "illegal inputs (reflect with a pad >= the row's length, replicate/reflect with a zero-length row) are outside the property and not generated",
         "cells of an output row beyond its reported length are unconstrained (the property speaks of the valid part); the output time dimension only has to hold the longest row",
         "random_shift draws its randomness through torch.rand_like (replaced by constants for the extreme-draw cases; if it did not, those cases degrade to ordinary seeded draws)",
+        "random_shift pads through the name _img.pad_variable, where the pad amounts are observed exactly; if it did not, only the existence of admissible amounts explaining the output is checked",
         "proportions are dyadic rationals so prop*len is exact in floating point",
     )
